@@ -7,6 +7,7 @@ import (
 	"math/rand"
 	"runtime"
 	"sync"
+	"sync/atomic"
 	"time"
 
 	ch "github.com/ClickHouse/ch-go"
@@ -21,6 +22,8 @@ type FreeOpts struct {
 	Cancel       bool  // the caller's context is cancelled while Do runs
 	Seed         int64 // jitter
 	PingAfter    bool  // a Ping on the same client after Do returned
+	FarDeadline  bool  // the caller's context carries a deadline an hour away (and may still be cancelled)
+	CancelAtUs   int   // > 0: cancel after exactly this many microseconds instead of a random delay
 }
 
 // RunFree executes the scenario with nothing gated and no hooks installed: sender, receiver, cancel watcher, the
@@ -30,7 +33,7 @@ func RunFree(sc Scenario, fo FreeOpts) (Event, error) {
 		lastID: map[string]int{}, doneCh: make(chan error, 1), free: true}
 	r.cond = sync.NewCond(&r.mu)
 	r.conn = simconn.New()
-	r.caller = &manualCtx{done: make(chan struct{})}
+	r.caller = &manualCtx{done: make(chan struct{}), deadline: fo.FarDeadline}
 	rng := rand.New(rand.NewSource(fo.Seed))
 	comp := map[string]ch.Compression{"disabled": ch.CompressionDisabled, "none": ch.CompressionNone, "lz4": ch.CompressionLZ4,
 		"lz4hc": ch.CompressionLZ4HC, "zstd": ch.CompressionZSTD}[sc.Compression]
@@ -108,9 +111,13 @@ func RunFree(sc Scenario, fo FreeOpts) (Event, error) {
 			_ = cl.Close()
 		}()
 	}
+	var cancelAt atomic.Int64
 	if fo.Cancel {
 		wg.Add(1)
 		d := time.Duration(rng.Intn(400)) * time.Microsecond
+		if fo.CancelAtUs > 0 {
+			d = time.Duration(fo.CancelAtUs) * time.Microsecond
+		}
 		go func() {
 			defer wg.Done()
 			select {
@@ -121,6 +128,7 @@ func RunFree(sc Scenario, fo FreeOpts) (Event, error) {
 			emu.Lock()
 			cancelledByEnv = true
 			emu.Unlock()
+			cancelAt.Store(time.Now().UnixNano())
 			r.caller.fire(context.Canceled)
 		}()
 	}
@@ -129,8 +137,10 @@ func RunFree(sc Scenario, fo FreeOpts) (Event, error) {
 	done := make(chan struct{})
 	go func() { doErr = cl.Do(r.caller, q); close(done) }()
 	stuck := ""
+	var returnedAt int64
 	select {
 	case <-done:
+		returnedAt = time.Now().UnixNano()
 	case <-time.After(15 * time.Second):
 		stuck = "Do did not return within 15 s"
 		r.caller.fire(context.Canceled)
@@ -163,6 +173,12 @@ func RunFree(sc Scenario, fo FreeOpts) (Event, error) {
 		}
 	}
 	out["chain"] = chain
+	out["farDeadline"] = fo.FarDeadline
+	out["readTimeoutMs"] = 2
+	out["afterCancelMs"] = -1
+	if ca := cancelAt.Load(); ca > 0 && returnedAt > 0 {
+		out["afterCancelMs"] = int((returnedAt - ca) / 1e6)
+	}
 	if fo.PingAfter && !cl.IsClosed() {
 		var pong proto.Buffer
 		proto.ServerCodePong.Encode(&pong)
